@@ -68,6 +68,11 @@ pub struct Scen {
     /// bit 2 `.layer(Identity)` before `.timeout(..)`
     #[serde(default)]
     pub srv_cfg: u8,
+    /// the executor is "busy" from l/2 until after the deadline (the virtual clock jumps over both the handler's
+    /// completion time and the deadline in one step): a call whose handler finishes before the deadline is still
+    /// unaffected, however late the runtime gets to look at it. Only used when Server::timeout is the only deadline.
+    #[serde(default)]
+    pub stall: bool,
 }
 
 #[derive(Clone, Debug, Serialize, Deserialize)]
@@ -429,7 +434,7 @@ fn enforce_case() -> BoxedStrategy<Case> {
         // configured timeouts that are effectively unbounded (Duration::MAX): 0 none, 1 endpoint, 2 server, 3 both
         prop_oneof![12 => Just(0u8), 1 => Just(1u8), 1 => Just(2u8), 1 => Just(3u8)],
         // a configured timeout of exactly zero: 0 none, 1 endpoint, 2 server; and the builder usage bits
-        (prop_oneof![10 => Just(0u8), 1 => Just(1u8), 1 => Just(2u8)], prop_oneof![3 => Just(0u8), 2 => 0u8..8]),
+        (prop_oneof![10 => Just(0u8), 1 => Just(1u8), 1 => Just(2u8)], prop_oneof![3 => Just(0u8), 2 => 0u8..8, 2 => (0u8..8).prop_map(|b| b | 0x10)]),
     )
         .prop_flat_map(|(stream, rk, ep, srv, (base, g1, g2, min_idx), (unit_sel, pad, mal_sel), (lat, free), huge, (zero, srv_cfg))| {
             (scen_script(stream), c02::wire_blob(false), c02::pipe_schedule(), c02::pipe_schedule(), any::<u64>()).prop_map(
@@ -455,6 +460,7 @@ fn enforce_case() -> BoxedStrategy<Case> {
                         s2c: s2c.clone(),
                         rt_seed,
                         srv_cfg,
+                        stall: srv_cfg & 0x10 != 0,
                     };
                     match zero {
                         1 => s.ep_us = Some(0),
@@ -889,6 +895,15 @@ fn run_enforce(s: &Scen, o: &mut Outcome) -> Result<(), Failure> {
     o.label_if(s.ep_us == Some(u64::MAX) || s.srv_us == Some(u64::MAX), "enf_configured_timeout_duration_max");
     let msg = s.req.bytes();
     let srv_cfg = s.srv_cfg;
+    // (start, jump) in ms of the executor stall, if this scenario has one
+    let stall: Option<(u64, u64)> = match (s.stall, t, &s.req_to, s.ep_us) {
+        (true, Some(("srv", t_ns)), None, None) if !expect_cut && l_ms >= 2 && t_ns < 1_000_000_000u128 * MS => {
+            let t_ms = ((t_ns + MS - 1) / MS) as u64;
+            Some((l_ms / 2, t_ms - l_ms / 2 + 7))
+        }
+        _ => None,
+    };
+    o.label_if(stall.is_some(), "enf_executor_stalled_across_completion_and_deadline");
     o.label_if(srv_cfg & 5 != 0, "enf_server_builder_with_layer");
     o.label_if(srv_cfg & 2 != 0, "enf_server_tcp_keepalive_set");
     o.label_if(s.ep_us == Some(0) || s.srv_us == Some(0), "enf_configured_timeout_zero");
@@ -931,6 +946,12 @@ fn run_enforce(s: &Scen, o: &mut Outcome) -> Result<(), Failure> {
             Ok(ch) => ch,
             Err(e) => return Err(format!("connect failed: {e:?}")),
         };
+        if let Some((at, jump)) = stall {
+            tokio::spawn(async move {
+                tokio::time::sleep(Duration::from_millis(at)).await;
+                tokio::time::advance(Duration::from_millis(jump)).await;
+            });
+        }
         let t = timed_call(ch, stream, req_to, msg).await;
         rt::quiesce().await;
         srv.abort();
@@ -997,7 +1018,7 @@ fn run_enforce(s: &Scen, o: &mut Outcome) -> Result<(), Failure> {
         let lo = l_ms.saturating_sub(TOL_MS);
         let hi = l_ms + TOL_MS;
         ensure!(
-            head >= lo && head <= hi && total >= lo && total <= hi,
+            stall.is_some() || head >= lo && head <= hi && total >= lo && total <= hi,
             "C09/completion-time",
             "{cfg}: response head at +{head} ms, call finished at +{total} ms, expected within [{lo}, {hi}] ms"
         );
